@@ -202,6 +202,8 @@ def wiring(ctx, w: Wiring, meth, op, case, st_mf, ba_mf, racc, where):
         env[e] = ('byte', bi)
         if e[0] == 'sub' and e[1] == ('attr', PM.SELF, '_symbol_identifiers'):
             env[e[2]] = ('byte', bi)          # symbols are identified with their numbers (injective: C03)
+        if e[0] == 'call' and e[1] == ('attr', ('attr', PM.SELF, '_symbol_identifiers'), 'setdefault') and len(e[2]) == 2:
+            env[e[2][0]] = ('byte', bi)       # table.setdefault(name, len(table)): the same lookup-or-assign
         i += 1
     # stack slots
     st_acc = st_mf.paths
